@@ -476,4 +476,62 @@ def resolveE (inv : Inv) (locals : List Name) (x : Name) : Ent :=
   else if x ∈ inv.args ++ inv.caps.map (·.1) then .param x
   else .outer x
 
+/-! ## Part 4: long-running use - histories of outer calls of several closures alive on one thread
+
+A `Body` may `ret` at ANY node: an explicit `return`, a `?` that propagates, a `break` out of a labelled block that is the
+function's last expression, and falling off the end are all the same node, so every theorem about bodies already ranges over
+early exits. What is new here is time: many outer calls, of several closures, one after the other on one thread. In the explicit
+recursion the ONLY thing that connects two calls is the store (the captured variables); `histG` says the same of the generated
+closures - no counter, cache or guard that survives a call. -/
+
+/-- A closure alive in the enclosing scope: its invocation, its body, and how deep it may recurse (stack budget). -/
+structure Live where
+  inv : Inv
+  body : Body
+  fuel : Nat
+
+/-- One outer call: the closure at position `i` of the live ones is called with the argument values `vs`. -/
+abbrev Event := Nat × List Val
+
+/-- The events in order for the EXPLICIT recursive functions: results in order and the final store. A failing call
+    (an error of the model, or out of fuel = stack overflow) ends the history with that error. -/
+def histE (ls : List Live) : List Event → Store → Except Err (List Val × Store)
+  | [], s => .ok ([], s)
+  | (i, vs) :: evs, s =>
+    match ls[i]? with
+    | none => .error (.unbound "closure")
+    | some l =>
+      match evalE l.inv l.body l.fuel vs s with
+      | .error e => .error e
+      | .ok (v, s') =>
+        match histE ls evs s' with
+        | .error e => .error e
+        | .ok (rs, sf) => .ok (v :: rs, sf)
+
+/-- The same history for the GENERATED closures: each live closure is what the token munchers expand its invocation to. -/
+def histG (ls : List Live) : List Event → Store → Except Err (List Val × Store)
+  | [], s => .ok ([], s)
+  | (i, vs) :: evs, s =>
+    match ls[i]? with
+    | none => .error (.unbound "closure")
+    | some l =>
+      match expand l.inv with
+      | none => .error .noRule
+      | some e =>
+        match closureG e l.body l.fuel vs s with
+        | .error er => .error er
+        | .ok (v, s') =>
+          match histG ls evs s' with
+          | .error er => .error er
+          | .ok (rs, sf) => .ok (v :: rs, sf)
+
+/-- Sequencing of two histories: what `evs₂` gives when started in the store `evs₁` left. -/
+def histThen (r₁ : Except Err (List Val × Store)) (h₂ : Store → Except Err (List Val × Store)) : Except Err (List Val × Store) :=
+  match r₁ with
+  | .error e => .error e
+  | .ok (rs₁, s₁) =>
+    match h₂ s₁ with
+    | .error e => .error e
+    | .ok (rs₂, s₂) => .ok (rs₁ ++ rs₂, s₂)
+
 end Rlib.Lambda
